@@ -290,9 +290,20 @@ impl<'a, 'c, 'cc> Visitor for AggVis<'a, 'c, 'cc> {
                         }
                     }
                 }
-                let variants: Vec<Vec<V::VerifierShare>> = vec![vec![], vs[..n - 1].to_vec(), vs.iter().cloned().chain(std::iter::once(vs[0].clone())).collect()];
+                let variants: Vec<Vec<V::VerifierShare>> = vec![
+                    vec![],
+                    vs[..n - 1].to_vec(),
+                    vs.iter().cloned().chain(std::iter::once(vs[0].clone())).collect(),
+                    // far too many: counters narrower than the share count must not wrap or overflow
+                    vs.iter().cloned().cycle().take(255).collect(),
+                    vs.iter().cloned().cycle().take(256 + n).collect(),
+                    vs.iter().cloned().cycle().take(513).collect(),
+                ];
                 for v in variants {
                     let k = v.len();
+                    if k == n {
+                        continue;
+                    }
                     match guard("verifier_shares_to_message(wrong count)", || vdaf.verifier_shares_to_message(&c.0, &ap, v)) {
                         Err(v) => ctx.fail(v),
                         Ok(Ok(_)) => ctx.fail(Violation::new("C16.accepts", format!("share_count|{}", inst.class), format!("verifier_shares_to_message accepted {k} shares for {n} aggregators"))),
